@@ -12,7 +12,7 @@ import importlib
 import pkgutil
 
 # global single-element cells through which a libext module may replace an engine default (module, attribute)
-HOOK_CELLS = [("pyvc.arr", "SYMBOLIC_MINMAX")]
+HOOK_CELLS = [("pyvc.arr", "SYMBOLIC_MINMAX"), ("pyvc.arr", "MASKED_ROW")]
 
 
 def _cells():
